@@ -175,6 +175,12 @@ def h_notation(ctx: Any, idx: int, m: int, twin: bool = False) -> None:
 
 
 def h_nary(ctx: Any, n: int, m: int, twin: bool = False) -> None:
+    """deconstruct_nary_application on n-ary applications built in every way the pattern API allows:
+    the notation call, a substitution written in another key order, a partial application completed later,
+    and a notation whose head is a metavariable bound to a symbol or to an application"""
+    from itertools import permutations
+
+    from frozendict import frozendict
     from proof_generation import pattern as P
     from proof_generation.proofs import kore as K
 
@@ -183,14 +189,47 @@ def h_nary(ctx: Any, n: int, m: int, twin: bool = False) -> None:
     # arguments that are themselves applications are out of scope: deconstruction is left-nested by definition
     for a in args:
         ctx.assume(P.App.unwrap(a) is None)
-    p = K.nary_app(sym, n, bool(ctx.choose(2, 'cell')))(*args)
+    nt = K.nary_app(sym, n, bool(ctx.choose(2, 'cell')))
+    variant = ctx.choose(4, 'variant')
+    want_sym, want_args = sym, args
+    if variant == 0 or n == 0:
+        p = nt(*args)
+    elif variant == 1:
+        perms = list(permutations(range(n)))
+        perm = perms[ctx.choose(len(perms), 'key-order')]
+        p = P.Instantiate(nt.definition, frozendict({k: args[k] for k in perm}))
+    elif variant == 2:
+        first = ctx.choose(n, 'first-key')
+        # completing the application instantiates metavariables inside the arguments given earlier as well: keep them closed
+        for a in args:
+            ctx.assume(not O.has_meta(O.expand(a)))
+        p = P.Instantiate(nt.definition, frozendict({first: args[first]})).instantiate({k: args[k] for k in range(n) if k != first})
+    else:
+        # head position is a metavariable: apply(h, a1..an) := ((h a1) ... an)
+        body: Any = P.MetaVar(0)
+        for i in range(n):
+            body = P.App(body, P.MetaVar(i + 1))
+        apply_nt = P.Notation('verif-apply', n + 1, body, 'apply')
+        if ctx.choose(2, 'head'):
+            extra = gens.gen_upto(ctx, 1, _prof('arg'))
+            ctx.assume(P.App.unwrap(extra) is None)
+            head: Any = P.App(sym, extra)
+            want_args = (extra, *args)
+        else:
+            head = sym
+        p = apply_nt(head, *args)
     s, got = K.deconstruct_nary_application(p)
     ctx.count('reached')
-    ctx.sample({'n': n, 'args': repr(args)})
+    ctx.sample({'n': n, 'variant': variant, 'args': repr(args)})
     if twin:
         ctx.violation('TWIN')
-    ok = bool(s == sym) and len(got) == n and all(O.eq(O.expand(a), O.expand(b)) for a, b in zip(got, args))
-    ctx.check(ok, 'C13.deconstruct_nary_application', lambda: f'{args!r} -> {s!r}, {got!r}')
+    ok = bool(s == want_sym) and len(got) == len(want_args) and all(O.eq(O.expand(a), O.expand(b)) for a, b in zip(got, want_args))
+    ctx.check(ok, f'C13.deconstruct_nary_application[variant={variant}]', lambda: f'{p!r} -> {s!r}, {got!r}; expected {want_sym!r}, {want_args!r}')
+    # and the same on the fully expanded pattern
+    patches.reset_caches()
+    s2, got2 = K.deconstruct_nary_application(gens.from_term(O.expand(p)))
+    ok = bool(s2 == want_sym) and len(got2) == len(want_args) and all(O.eq(O.expand(a), O.expand(b)) for a, b in zip(got2, want_args))
+    ctx.check(ok, f'C13.deconstruct_nary_application-on-expansion[variant={variant}]', lambda: f'{p!r} expanded -> {s2!r}, {got2!r}')
 
 
 def levels(tier: str) -> list[dict]:
